@@ -183,6 +183,10 @@ fn analyze_token_spacing(ctx: &FormatContext, spacing: &mut SpacingModel, token:
                 {
                     spacing.add_token_left_expected(syntax_id, TokenSpacingExpected::Space(1));
                 }
+            } else if is_parent_syntax(token, LuaSyntaxKind::TypeBinary) {
+                // `T -?` / `T +?` in a doc type are type operators, not arithmetic: `T-?` is read
+                // as a different type
+                apply_space_rule(spacing, syntax_id, SpaceRule::Space);
             } else {
                 apply_space_rule(
                     spacing,
